@@ -4,6 +4,7 @@ package main
 
 import (
 	"fmt"
+	"hash/crc32"
 	"os"
 	"strings"
 	"sync"
@@ -62,7 +63,7 @@ func runC19(c *Ctx) {
 		case strings.Contains(q.Name, "rflong"):
 			d.Delay = 4500
 		case strings.Contains(q.Name, "rfmany"):
-			d.Delay = 3000
+			d.Delay = 500 + int(crc32.ChecksumIEEE([]byte(strings.ToLower(q.Name)))%4)*700 // refreshes of different questions end at different times
 		case strings.Contains(q.Name, "rfclose"):
 			d.Delay = 300
 			d.Kind = "close"
@@ -107,8 +108,10 @@ func runC19(c *Ctx) {
 			keys = append(keys, &key{name: fmt.Sprintf("ok-n2-ttl26-rflong-l%dr%dx%d.pipe.test.", i, rep, c.Seed), burst: 8, outcome: "rflong", ttl: 26, hitAges: []float64{19.8, 23.4}})
 		}
 		// many distinct questions in their refresh window at the same moment, slow refreshes
-		for i := 0; i < 48; i++ {
-			keys = append(keys, &key{name: fmt.Sprintf("ok-n1-ttl16-rfmany-m%dr%dx%d.pipe.test.", i, rep, c.Seed), burst: 1, outcome: "rfmany", ttl: 16, hitAges: []float64{12.3}, group: "many"})
+		// (256 of them: whatever table keeps the reservations gets collisions; every question is hit
+		// again while its own refresh and those of the others are in flight or just over)
+		for i := 0; i < 256; i++ {
+			keys = append(keys, &key{name: fmt.Sprintf("ok-n1-ttl16-rfmany-m%dr%dx%d.pipe.test.", i, rep, c.Seed), burst: 1, outcome: "rfmany", ttl: 16, hitAges: []float64{12.3, 13.0, 13.6}, group: "many"})
 		}
 	}
 	for i, k := range keys {
@@ -268,6 +271,16 @@ func runC19(c *Ctx) {
 				slow = append(slow, r)
 				continue
 			}
+			refreshed := false // a later hit may already see what a completed background refresh stored
+			for _, f := range fs[min(1, len(fs)):] {
+				if f.Serial == r.Serial && f.TSend != 0 && f.TSend <= r.TRecv {
+					refreshed = true
+				}
+			}
+			if refreshed {
+				okHits++
+				continue
+			}
 			if r.Serial != old {
 				lifeViolation("hit-not-from-cache:"+k.outcome, fmt.Sprintf("a query at age %v of a %d s entry was answered with reply %d instead of the cached reply %d", age, k.ttl, r.Serial, old), cs(map[string]any{"serial": r.Serial, "listener": r.Listener}))
 				continue
@@ -319,7 +332,7 @@ func runC19(c *Ctx) {
 					} else if k.outcome == "rflong" || k.outcome == "rfmany" || k.outcome == "rfok" || k.outcome == "rfshort" || k.outcome == "rfsubnets" || k.outcome == "rfrefused" {
 						// the scripted delay had not elapsed when the log was read: the refresh is in flight
 						// until the reply is sent (a little less, to stay on the safe side)
-						endI = fs[i].TRecv + map[string]int64{"rflong": 4400, "rfmany": 2900, "rfok": 1400, "rfshort": 400, "rfsubnets": 1400, "rfrefused": 250}[k.outcome]*int64(time.Millisecond)
+						endI = fs[i].TRecv + map[string]int64{"rflong": 4400, "rfmany": 400, "rfok": 1400, "rfshort": 400, "rfsubnets": 1400, "rfrefused": 250}[k.outcome]*int64(time.Millisecond)
 					} else {
 						endI = fs[i].TRecv + int64(280*time.Millisecond) // the scripted close happens 300 ms after the query arrived
 					}
